@@ -64,6 +64,10 @@ pub struct BCase {
     /// working directory, 3 through a symbolic link
     #[serde(default)]
     pub dir_form: u8,
+    /// with kill_restart: the restarted server gets this allow-list instead (same encoding as
+    /// `allow`); None = the same list as before
+    #[serde(default)]
+    pub restart_allow: Option<Option<(u8, u8)>>,
 }
 
 pub struct Proc {
@@ -167,6 +171,18 @@ fn plan_launch(bc: &BCase, dir: &Path, clients: &[Uuid]) -> Option<Launch> {
         if ids.is_empty() {
             ids.push(case::fresh_uuid(7999).to_string());
         }
+        // every text form the option's parser takes names the same id
+        let ids: Vec<String> = ids
+            .into_iter()
+            .enumerate()
+            .map(|(i, id)| match (bc.salt as usize / 3 + i) % 6 {
+                1 => id.to_uppercase(),
+                2 => id.replace('-', ""),
+                3 => format!("{{{id}}}"),
+                4 => format!("urn:uuid:{id}"),
+                _ => id,
+            })
+            .collect();
         match bc.allow_style {
             ListStyle::Repeated => {
                 for (i, id) in ids.iter().enumerate() {
@@ -208,6 +224,13 @@ pub fn spawn(bin: &Path, l: &Launch) -> Result<Proc, String> {
     }
     for (k, v) in &l.env {
         cmd.env(k, v);
+    }
+    if !l.env.iter().any(|(k, _)| k == "RUST_LOG") {
+        // operators run with logging on; which level must not matter (output goes nowhere)
+        let port = l.connect.first().map(|a| a.port()).unwrap_or(0);
+        if let Some(level) = [None, Some("info"), Some("debug"), Some("warn")][(port % 4) as usize] {
+            cmd.env("RUST_LOG", level);
+        }
     }
     let mut child = cmd.spawn().map_err(|e| format!("spawn: {e}"))?;
     let t0 = Instant::now();
@@ -299,7 +322,11 @@ pub fn check(bc: &BCase, st: &mut Stats) -> CheckResult {
         return Err(Fail::Inconclusive("the server executable has not been built (run ./check --build)".into()));
     };
     let dir = TempDir::new("c17");
-    let dpath = dir.path().join("data");
+    // the directory's own name: plain, with a blank, non-ASCII, characters that mean something in
+    // URLs, or two levels that do not exist yet
+    let dname = ["data", "data", "da ta", "d\u{e4}-ta", "a%20b", "q?x=1", "h#1", "nested/two/levels"][(bc.salt / 2 % 8) as usize];
+    let dpath = dir.path().join(dname);
+    st.label(&format!("c17:data-dir-name:{dname}"));
     let cfg = Cfg {
         snapshot_versions: if bc.snapshot_versions.0 == Src::Default { 100 } else { bc.snapshot_versions.1 },
         snapshot_days: if bc.snapshot_days.0 == Src::Default { 14 } else { bc.snapshot_days.1 },
@@ -379,6 +406,18 @@ pub fn check(bc: &BCase, st: &mut Stats) -> CheckResult {
         let _ = proc.child.kill();
         let _ = proc.child.wait();
         drop(proc);
+        // the operator may restart with another allow-list: the restarted server enforces
+        // exactly the new one, also against clients that synced under the old one
+        let mut bc2 = bc.clone();
+        if let Some(a) = bc.restart_allow {
+            bc2.allow = a;
+            st.label("c17:restart-with-another-allow-list");
+        }
+        let bc = &bc2;
+        let listed = |c: Uuid| match bc.allow {
+            None => true,
+            Some((k, _)) => clients.iter().take(k as usize).any(|x| *x == c),
+        };
         let proc2 = start(&bin, bc, &dpath, &clients)?;
         let drv2 = ext_driver(&dpath, &cfg, proc2.addrs.clone())?;
         let mut or2 = Oracles::default();
@@ -398,6 +437,16 @@ pub fn check(bc: &BCase, st: &mut Stats) -> CheckResult {
                 Fail::Violation(m) => Fail::Violation(format!("{what}: after killing the server and restarting it on the same data directory: {m}")),
                 o => o,
             })?;
+        }
+        for c in clients.iter().copied().filter(|c| !listed(*c)) {
+            let m = model.client(c);
+            let body = vec![bytes::Bytes::from_static(b"after-restart")];
+            for req in [crate::driver::req_get_child(c, m.base()), crate::driver::req_get_snapshot(c), crate::driver::req_add_version(c, m.latest(), body.clone()), crate::driver::req_add_snapshot(c, m.latest(), body.clone())] {
+                let r = h2.drv.http_call(req.clone());
+                if r.status != 403 {
+                    return v(format!("{what}: after a restart with allow-list {:?}, {} {} by client {c} (not on that list; {} versions stored from before) was answered {} ({:?})", bc.allow, req.method, req.path, m.chain.len(), r.status, r.crashed));
+                }
+            }
         }
         // and the history continues on the restarted server as if nothing had happened
         let mut or3 = Oracles::default();
@@ -482,11 +531,12 @@ fn bcase(max_ops: usize) -> BoxedStrategy<BCase> {
         (src(), prop_oneof![4 => 0i64..4, 1 => Just(i64::MAX / 2)]),
         proptest::collection::vec(case::op(4, &p), 4..=max_ops),
         any::<u32>(),
-        (prop::bool::weighted(0.5), prop_oneof![3 => Just(0u8), 1 => Just(1u8), 1 => Just(2u8), 1 => Just(3u8)]),
+        (prop::bool::weighted(0.5), prop_oneof![3 => Just(0u8), 1 => Just(1u8), 1 => Just(2u8), 1 => Just(3u8)], proptest::option::weighted(0.4, proptest::option::weighted(0.8, (0u8..4, 0u8..3)))),
     )
-        .prop_map(|(mut hosts, listen_style, data_dir_src, allow, allow_style, snapshot_versions, snapshot_days, ops, salt, (kill_restart, dir_form))| {
+        .prop_map(|(mut hosts, listen_style, data_dir_src, allow, allow_style, snapshot_versions, snapshot_days, ops, salt, (kill_restart, dir_form, restart_allow))| {
             hosts.dedup();
-            BCase { hosts, listen_style, data_dir_src, allow, allow_style, snapshot_versions, snapshot_days, ops, salt: salt & 0xFFFF, kill_restart, dir_form }
+            let restart_allow = if kill_restart && restart_allow != Some(allow) { restart_allow } else { None };
+            BCase { hosts, listen_style, data_dir_src, allow, allow_style, snapshot_versions, snapshot_days, ops, salt: salt & 0xFFFF, kill_restart, dir_form, restart_allow }
         })
         .boxed()
 }
@@ -524,7 +574,7 @@ pub fn run(tier: Tier, seed: u64) -> Report {
                 for i in 0..(2 * vs + 2) {
                     ops.push(Op::AddVersion { c: 0, parent: IdRef::Latest(0), data: d(10 + i) });
                 }
-                grid.push(BCase { hosts: vec![0], listen_style: ListStyle::Repeated, data_dir_src: Src::Flag, allow: None, allow_style: ListStyle::Repeated, snapshot_versions: (sv, vs), snapshot_days: (sd, ds), ops, salt: 2 * (k as u32 * 16 + j as u32) + 1, kill_restart: false, dir_form: 0 });
+                grid.push(BCase { hosts: vec![0], listen_style: ListStyle::Repeated, data_dir_src: Src::Flag, allow: None, allow_style: ListStyle::Repeated, snapshot_versions: (sv, vs), snapshot_days: (sd, ds), ops, salt: 2 * (k as u32 * 16 + j as u32) + 1, kill_restart: false, dir_form: 0, restart_allow: None });
             }
         }
     }
